@@ -66,6 +66,17 @@ func objectsOf(files map[string]string) map[string]string {
 	return out
 }
 
+// quarantinedOf: what the repair moved aside (lfs/bad): name -> sha256.
+func quarantinedOf(files map[string]string) map[string]string {
+	out := map[string]string{}
+	for rel, h := range files {
+		if strings.HasPrefix(rel, "bad"+string(filepath.Separator)) {
+			out[filepath.Base(rel)] = h
+		}
+	}
+	return out
+}
+
 func sameMap(a, b map[string]string) bool {
 	if len(a) != len(b) {
 		return false
@@ -322,6 +333,7 @@ func runC09(c *Ctx) {
 	os.Remove(logFile)
 	outU, exitU := w.Run(sc.dir, &RunOpts{Env: []string{"VERIF_CRASH_LOG=" + logFile}}, "git", sc.args...)
 	finalObjs := objectsOf(lfsFiles(sc.gitDir))
+	finalBad := quarantinedOf(lfsFiles(sc.gitDir))
 	for name, hsh := range finalObjs {
 		if len(name) == 64 && name != hsh && kind != "fsck" {
 			c.Violation("bad-object-without-crash", "uninterrupted %v left object %s hashing to %s", sc.args, name[:12], hsh[:12])
@@ -418,6 +430,13 @@ func runC09(c *Ctx) {
 		if !sameMap(after, finalObjs) {
 			c.Violation("rerun-reaches-different-storage", "%s %v killed at %s: after re-running, local storage differs from an uninterrupted run: %s", kind, sc.args, pt, diffMap(finalObjs, after))
 			break
+		}
+		// what a repair moves aside is part of the state it must reach
+		if sc.bad {
+			if q := quarantinedOf(lfsFiles(sc.gitDir)); !sameMap(q, finalBad) {
+				c.Violation("rerun-reaches-different-storage", "%s %v killed at %s: after re-running, the objects moved aside (lfs/bad) differ from an uninterrupted run: %s", kind, sc.args, pt, diffMap(finalBad, q))
+				break
+			}
 		}
 		for name, hsh := range after {
 			if kind == "fsck" {
